@@ -1106,3 +1106,16 @@ def reason_accepted_edges(f, code, packet="ConnAck"):
             elif _is_call(a, "ReasonCode::success") and si["edges"].get(not neg) is not None:
                 out.append((bb, si["edges"][not neg]))
     return out
+
+
+def latch_blocks(f, code):
+    """blocks of `code` that latch the handle: a call that (transitively) stores false into LIVE, or that store itself
+    written in place (`self.live = false;`)"""
+    out = [bb for bb, c in code.calls.items() if bb in code.reachable and call_latches(f, c)]
+    lf = live_field(f)
+    for (b, bb, j, dst, rv, s_, final) in f.field_stores(CONN, lf):
+        if b.name == code.name and bb in code.reachable:
+            t = b.rvalue_term(rv)
+            if t[0] == "const" and t[2] == 0:
+                out.append(bb)
+    return sorted(set(out))
